@@ -89,7 +89,8 @@ def record(b, o, t, cart, f):
 def plan(thorough, rng):
     grids = [("1", "4", "[0.2, 0.35]", False, 2), ("4", "5", "[0.2, 0.3, 0.45]", False, 2), ("8", "7", "[0.15, 0.3]", False, 1),
              ("randomQ_5", "randomS_12", "[0.2, 0.3]", False, 0.5), ("cube4D_9", "cube3D_9", "[0.2, 0.3, 0.5, 0.6]", False, 2),
-             ("8", "12", "[0.2, 0.3, 0.45]", False, 2), ("5", "12", "[0.2, 0.3]", True, 2), ("4", "ico_20", "[0.25, 0.4]", True, 1),
+             ("8", "12", "[0.2, 0.3, 0.45]", False, 2), ("5", "12", "[0.2, 0.3]", False, 2), ("5", "12", "[0.2, 0.3]", True, 2),
+             ("5", "12", "[0.2, 0.3]", False, 1),        # the same grid in both position modes and with two factors, one process ("4", "ico_20", "[0.25, 0.4]", True, 1),
              ("1", "1", "[0.2, 0.3]", False, 2), ("randomQ_8", "ico_7", "linspace(0.2, 0.4, 3)", False, 3)]
     if thorough:
         grids.append(("4", "4", "[0.2, 0.3]", True, 2))        # open Euclidean cells: listed known finding
